@@ -94,6 +94,7 @@ PROPS = {
                                    "Tier 2 simulator as in C05; fairness of the real executor is assumed"],
         streams=[
             S("sim", ["--cases", 200, "--nodes", 4], ["--cases", 15000, "--nodes", 4, "--actions", 60]),
+            S("simchain", ["--cases", 150, "--nodes", 4], ["--cases", 10000, "--nodes", 4, "--actions", 60]),
             S("simfault", ["--cases", 150, "--nodes", 4], ["--cases", 8000, "--nodes", 4, "--actions", 60]),
         ],
     ),
